@@ -208,6 +208,12 @@ class Sched:
 
         self.saved_handlers = _lg.getLogger().handlers[:]
         self.saved_level = _lg.getLogger().level
+        self.saved_disable = _lg.root.manager.disable
+        _lg.disable(_lg.NOTSET)      # messages are switched on: they belong to standard error, the records to standard output
+        import io as _io
+
+        self.saved_stderr = sys.stderr
+        sys.stderr = _io.StringIO()      # (a sink: what the command logs is of no interest here)
         fake = self
 
         class FakeMP:
@@ -258,6 +264,9 @@ class Sched:
             if h not in getattr(self, "saved_handlers", []):
                 _lg.getLogger().removeHandler(h)
         _lg.getLogger().setLevel(getattr(self, "saved_level", _lg.WARNING))
+        _lg.disable(getattr(self, "saved_disable", _lg.CRITICAL))
+        if getattr(self, "saved_stderr", None) is not None:
+            sys.stderr = self.saved_stderr
         RL.mp = self.saved_mp
         sys.stdout = self.saved_stdout
         for p in self.procs + self.created:
